@@ -340,6 +340,7 @@ impl BytecodeBuilder {
                 | Op::DeclareVar { .. }
                 | Op::DeclareVarHoisted { .. }
                 | Op::DeclareNamespaceExport { .. }
+                | Op::RecordNamespaceExport { .. }
                 | Op::BindNamespaceExports { .. }
                 | Op::GetGlobal { .. }
                 | Op::SetGlobal { .. }
